@@ -207,13 +207,16 @@ def scalar_or_tri(draw, max_dim):
         f = draw(st.sampled_from(FAMILIES))
         fam.append(f)
         where = draw(st.sampled_from(["inside", "lower_end", "upper_end", "ulp_below", "ulp_above", "far_below",
-                                      "far_above", "near_below", "near_above", "inside"]))
+                                      "far_above", "near_below", "near_above", "inside", "tiny", "tiny"]))
         u = draw(st.floats(0.01, 0.99))
         far = draw(st.sampled_from([1e6, 1e4, 37.0, 1e3]))
         ri = {"inside": lower + u * (upper - lower), "lower_end": lower, "upper_end": upper,
               "ulp_below": float(np.nextafter(DT(lower), DT(-np.inf))), "ulp_above": float(np.nextafter(DT(upper), DT(np.inf))),
               "far_below": lower - far * (1 + u), "far_above": upper + far * (1 + u),
-              "near_below": lower - u * (upper - lower), "near_above": upper + u * (upper - lower)}[where]
+              "near_below": lower - u * (upper - lower), "near_above": upper + u * (upper - lower),
+              # roots of small magnitude wherever the interval is: float resolution at the root is far finer than at the
+              # interval ends, so the requested tolerance (not the resolution) is what binds, also in float32
+              "tiny": (1 if u > 0.5 else -1) * u * 10.0 ** (-draw(st.integers(2, 6)))}[where]
         r.append(float(DT(ri)))
         ai, bi = draw(_slope()), draw(_slope())
         if f in ("sinh",):
